@@ -50,6 +50,21 @@ def encode_form(boundary, parts, preamble=b"", epilogue=b"", charset="utf-8"):
 # ----------------------------------------------------------------------------- reference parser
 
 
+def ref_parse_any_break(body, boundary, charset):
+    """ref_parse, also for a body written with bare LF (or bare CR) line breaks throughout - the decoder accepts
+    them - as long as no part content contains a line break itself (then the reading is unambiguous)"""
+    exp = ref_parse(body, boundary, charset)
+    if exp is not None or b"\r\n" in body:
+        return exp
+    kinds = [br for br in (b"\n", b"\r") if br in body]
+    if len(kinds) != 1:
+        return None
+    exp = ref_parse(body.replace(kinds[0], b"\r\n"), boundary, charset)
+    if exp is None or any(b"\r" in p.content or b"\n" in p.content for p in exp["parts"]):
+        return None
+    return exp
+
+
 def py_decode(data, charset):
     try:
         return data.decode(charset)
@@ -516,11 +531,11 @@ def rand_content(rng, boundary, maxlen=24):
 
 BOUNDARIES = [b"bd", b"-", b"--", b"a-b", b"b", b"X" * 70, b"a.b(c)[d]+*?^$|\\", b"----WebKitFormBoundary7MA4YWxk",
               b"'()+_,-./:=?", b"0", b"next part 7e3", b"a b"]
-NAMES = ["a", "b", "field", "name with space", "üñî", "中文", "x;y", "a=b", "q'z", "",
+NAMES = ["rate 100%22", "report%0A50", "%0D", "a%2522b", "a", "b", "field", "name with space", "üñî", "中文", "x;y", "a=b", "q'z", "",
          "n:1", "*",
          # characters that str.splitlines / str.strip treat specially but that are NOT line breaks of the format
          "a\x0cb", "t\x1cu", "n\x85m", "x\u2028y", "v\x0bw", "p\u2029q"]
-FILENAMES = ["f.txt", "a b.bin", "é.png", "semi;colon.txt", "", "中.bin", "C:fake", "x=y",
+FILENAMES = ["report 50%0A.txt", "q%22uote%22.bin", "f.txt", "a b.bin", "é.png", "semi;colon.txt", "", "中.bin", "C:fake", "x=y",
              "ff\x0c.bin", "ls\u2028.txt", "nel\x85.dat", "fs\x1c"]
 EXTRA = [("Content-Type", "text/plain"), ("Content-Type", "application/octet-stream"), ("X-Custom", "a: b; c"),
          ("Content-Transfer-Encoding", "binary"), ("X-Empty-Ish", "0")]
